@@ -132,11 +132,11 @@ func solveAll(r *vcore.Run, label string, field *big.Int, sys constraint.Constra
 				}()
 				select {
 				case <-done:
-				case <-time.After(5 * time.Minute): // these solves take milliseconds; the goroutine is abandoned
+				case <-time.After(90 * time.Second): // these solves take milliseconds; the goroutine is abandoned
 					r.Count("solve.DID-NOT-RETURN", 1)
-					r.Violation("solve-does-not-return/"+sig(label), "Solve did not return within 5 minutes (the same system solves other witnesses in milliseconds)",
+					r.Violation("solve-does-not-return/"+sig(label), "Solve did not return within 90 s (the same system solves other witnesses in milliseconds)",
 						map[string]any{"system": label, "witness": wi, "tasks": tc, "which": which})
-					continue
+					return // one hang per system is enough; the abandoned goroutine keeps its workers
 				}
 				if pan != nil {
 					r.Violation("solve-panic/"+sig(label), fmt.Sprintf("%v\n%s", pan, stack), map[string]any{"system": label, "witness": wi, "tasks": tc, "which": which})
